@@ -1,4 +1,5 @@
 import MpsProofs.Echo
+import MpsProps.HandlerSrc
 import MpsProps.C06Byz
 import MpsGen.Session
 /-
